@@ -14,6 +14,7 @@
 //	    -> validate=<ok|err>                           (config-file rule of validateConfig)
 //	ex.run   beh=<..> timeout_ms=<n> [hold_ms=<n|->]
 //	    -> res=<ok:<len>:<first 20 bytes hex>|err|panic:<class>|blocked> within=<0|1>
+//	       (blocked = no return by timeout + 3 s; within = returned by timeout + 500 ms)
 //	ex.reset / ex.count
 //	    -> ok / executed=<n> not=<m>                   (how many calls left / did not leave the marker)
 //	ex.user  kind=<sensor|fanpwm|fanrpm|fanset> beh=<..>
